@@ -163,8 +163,9 @@ MANIFEST_TEXT = {
         technique="Lean 4 proof by kernel evaluation over regenerated tables + unbounded lemmas + differential correspondence"),
     "C13": dict(
         text="Per-run kernel evaluation over the regenerated tables: C13_closure, C13_lookup (+ unambiguous parameters, which makes Go's map iteration order irrelevant), C13_latest, C13_sizes (M = N + 8, N <= 242), C13_na_cells, "
-             "C13_repeater, C13_sf_monotone, C13_defaults (frequencies, RX2, -2 dB steps, LoRa DR definitions); C13_unknown_resolves for any table.",
-        note="Trusted: as C12. Regional default cells tagged pinned are not independent. One genuine defect found and repaired (ISM2400 DR2 M=248).",
+             "C13_repeater, C13_sf_monotone, C13_defaults (frequencies, RX2, -2 dB steps, LoRa DR definitions), C13_keys (every table is filed under a protocol-version key outside and a revision key inside, so none is out of reach and non-version strings resolve to latest); C13_unknown_resolves for any table. "
+             "Every max-payload answer of the implementation is judged against the cell that the property's version / revision fallback rule selects in the regenerated tables.",
+        note="Trusted: as C12. Regional default cells tagged pinned are not independent. Two genuine defects found and repaired (ISM2400 DR2 M=248; AS923 RP002-1.0.0 table filed under the protocol-version key).",
         technique="Lean 4 proof by kernel evaluation over regenerated tables + differential correspondence"),
     "C14": dict(
         text="Lean refinement theorems for EVERY band state (any history) and every device channel set in any order: C14_generic (apply(plan) = target for plans of <= 128 channels), "
